@@ -56,6 +56,20 @@ fn oracle_with(cases: &[AuthCase], c: &SelCase, cx: &mut CaseCtx) -> Result<(), 
     let raw = serde_json::value::to_raw_value(&e.content).map_err(|x| x.to_string())?;
     let Ok(sender) = <&UserId>::try_from(e.sender.as_str()) else { return Ok(()) };
     let got = auth_types_for_event(&TimelineEventType::from(e.ty.as_str()), sender, e.state_key.as_deref(), &raw, &rules);
+    // the content handed over as a different spelling of the same JSON (key order, escaped key and
+    // string characters, whitespace) selects the same pairs
+    {
+        let h = vf_engine::fnv(e.content.to_string().as_bytes());
+        let text = vf_ref::respell::respell(&e.content, (h >> 8) as u8, (h >> 16) as u8 % 15 + 1, &mut 0);
+        if let Ok(raw2) = serde_json::value::RawValue::from_string(text.clone()) {
+            let got2 = auth_types_for_event(&TimelineEventType::from(e.ty.as_str()), sender, e.state_key.as_deref(), &raw2, &rules);
+            let norm = |r: &Result<Vec<(ruma_events::StateEventType, String)>, String>| r.as_ref().ok().map(|g| g.iter().map(|(t, k)| (t.to_string(), k.clone())).collect::<BTreeSet<_>>());
+            if norm(&got) != norm(&got2) {
+                return Err(format!("room version {v}: auth-event selection for {} depends on how the content is spelled: {text} selects {:?}, the plain spelling {:?}", brief_ev(e), norm(&got2), norm(&got)));
+            }
+            cx.class("content_respelled");
+        }
+    }
     let selection: BTreeSet<(String, String)> = match (&want, &got) {
         (Some(w), Ok(g)) => {
             let gs: BTreeSet<(String, String)> = g.iter().map(|(t, k)| (t.to_string(), k.clone())).collect();
